@@ -15,12 +15,21 @@ from .. import mdl as M, extract_tables
 
 PID = "C20"
 DELAYS = ["none", "discrete", "spread", "discrete+spread", "spread+discrete"]
+# the same kinds realised as matrix connections (PopulationTemplate + Connectivity objects, declaration order as named)
+MDELAYS = ["m:discrete", "m:spread", "m:discrete+spread", "m:spread+discrete"]
 
 
 def build_delay_model(kind):
     from pyrates import OperatorTemplate, NodeTemplate, CircuitTemplate
     op = OperatorTemplate(name="li", equations=["x' = -x + r_in"], variables={"x": "output(1.0)", "r_in": "input(0.0)"}, path=None)
     nt = NodeTemplate(name="n", operators=[op], path=None)
+    if kind.startswith("m:"):
+        from pyrates.frontend.template.population import PopulationTemplate, Connectivity
+        pop = PopulationTemplate(name="b", node=nt, n=2, params={"li/x": [1.0, 2.0]})
+        cd = Connectivity(source="b/li/x", target="b/li/r_in", weights=np.array([[0., 0.5], [0.5, 0.]]), delays=0.02)
+        cs = Connectivity(source="b/li/x", target="b/li/r_in", weights=np.array([[0., 0.25], [0.5, 0.]]), delays=0.02, spread=0.01)
+        conns = {"discrete": [cd], "spread": [cs], "discrete+spread": [cd, cs], "spread+discrete": [cs, cd]}[kind[2:]]
+        return CircuitTemplate(name="net", populations={"b": pop}, connections=conns, path=None)
     d = {"weight": 1.0, "delay": 0.02}
     s = {"weight": 1.0, "delay": 0.02, "spread": 0.01}
     edges = {"none": [("a/li/x", "b/li/r_in", None, {"weight": 1.0})],
@@ -190,19 +199,24 @@ def check(tier, seed, replay=None):
                        "configurations the model expects to raise + a random sample of the others; thorough = the full matrix incl. fortran.  M: " +
                        "malformed variants of a valid two-node model, each with vectorize on/off.  distinct = distinct configurations/variants; non-trivial = expected to raise")
     # ---------------- X
-    allcfg = [{"backend": b, "solver": s, "vectorize": v, "delay": d, "sparse": sp} for b in installed for s in universe for v in (False, True) for d in DELAYS for sp in (False, True)
+    allcfg = [{"backend": b, "solver": s, "vectorize": v, "delay": d, "sparse": sp} for b in installed for s in universe for v in (False, True) for d in DELAYS + MDELAYS for sp in (False, True)
               if not (sp and s != "euler")]          # the sparse flag concerns get_jacobian_func only: one solver name suffices
     drv = C.Driver()
     lean_names = {"default": "base"}
-    must = drv.ask({"comp": "guard", "configs": [dict(c, backend=lean_names.get(c["backend"], c["backend"])) for c in allcfg]})["must_raise"]
+    must = drv.ask({"comp": "guard", "configs": [dict(c, backend=lean_names.get(c["backend"], c["backend"]), delay=c["delay"].split(":")[-1]) for c in allcfg]})["must_raise"]
     drv.close()
     idx = list(range(len(allcfg)))
     if tier == "quick" and not replay:
-        raising = [i for i in idx if must[i]]
+        def solver_known(c):
+            b = B.get(lean_names.get(c["backend"], c["backend"])) or {}
+            return c["solver"] in (b.get("SUPPORTED_SOLVERS") or [])
+        flagged = [i for i in idx if must[i] and solver_known(allcfg[i])]        # raise is due to a capability flag: all of them
+        raising = [i for i in idx if must[i] and not solver_known(allcfg[i])]    # raise is due to the solver name: a sample
         others = [i for i in idx if not must[i]]
         rng.shuffle(raising)
         rng.shuffle(others)
-        idx = raising[:90] + others[:50]
+        idx = flagged + raising[:60] + others[:50]
+        rep.cov["streams"]["X_flag_caused_configs"] = len(flagged)
     rng.shuffle(idx)
     if replay:
         r = json.load(open(replay))
